@@ -106,7 +106,24 @@ impl<'a> Iterator for SymExprIter<'a> {
 
 impl SymExpr {
     /// Return the range of possible values this element may have.
+    ///
+    /// The range is computed using interval arithmetic and is conservative:
+    /// it contains the value of the expression for every assignment of
+    /// symbols under which evaluation does not overflow.
     pub fn range(&self) -> (i32, i32) {
+        fn clamp(x: i64) -> i32 {
+            x.clamp(i32::MIN as i64, i32::MAX as i64) as i32
+        }
+
+        let binary_ranges = |lhs: &SymExpr, rhs: &SymExpr| {
+            let (lhs_min, lhs_max) = lhs.range();
+            let (rhs_min, rhs_max) = rhs.range();
+            (
+                (lhs_min as i64, lhs_max as i64),
+                (rhs_min as i64, rhs_max as i64),
+            )
+        };
+
         match self {
             Self::Value(x) => (*x, *x),
             Self::Var(sym) => {
@@ -117,26 +134,49 @@ impl SymExpr {
                 }
             }
             Self::Neg(x) => {
-                if x.is_positive() {
-                    (i32::MIN, -1)
+                let (min, max) = x.range();
+                (clamp(-(max as i64)), clamp(-(min as i64)))
+            }
+            Self::Add(lhs, rhs) => {
+                let ((lhs_min, lhs_max), (rhs_min, rhs_max)) = binary_ranges(lhs, rhs);
+                (clamp(lhs_min + rhs_min), clamp(lhs_max + rhs_max))
+            }
+            Self::Sub(lhs, rhs) => {
+                let ((lhs_min, lhs_max), (rhs_min, rhs_max)) = binary_ranges(lhs, rhs);
+                (clamp(lhs_min - rhs_max), clamp(lhs_max - rhs_min))
+            }
+            Self::Mul(lhs, rhs) => {
+                let ((lhs_min, lhs_max), (rhs_min, rhs_max)) = binary_ranges(lhs, rhs);
+                let products = [
+                    lhs_min * rhs_min,
+                    lhs_min * rhs_max,
+                    lhs_max * rhs_min,
+                    lhs_max * rhs_max,
+                ];
+                let min = products.iter().copied().min().unwrap();
+                let max = products.iter().copied().max().unwrap();
+                (clamp(min), clamp(max))
+            }
+            Self::Div(lhs, rhs) | Self::DivCeil(lhs, rhs) => {
+                // The divisor is a non-zero integer, so the magnitude of the
+                // result never exceeds the magnitude of the dividend.
+                let ((lhs_min, lhs_max), (rhs_min, _rhs_max)) = binary_ranges(lhs, rhs);
+                if lhs_min >= 0 && rhs_min >= 0 {
+                    (0, clamp(lhs_max))
                 } else {
-                    (i32::MIN, i32::MAX)
+                    let max_abs = lhs_min.abs().max(lhs_max.abs());
+                    (clamp(-max_abs), clamp(max_abs))
                 }
             }
-            Self::Add(lhs, rhs)
-            | Self::Mul(lhs, rhs)
-            | Self::Max(lhs, rhs)
-            | Self::Min(lhs, rhs)
-            | Self::Div(lhs, rhs)
-            | Self::DivCeil(lhs, rhs) => {
+            Self::Max(lhs, rhs) => {
                 let (lhs_min, lhs_max) = lhs.range();
                 let (rhs_min, rhs_max) = rhs.range();
-                (lhs_min.min(rhs_min), lhs_max.max(rhs_max))
+                (lhs_min.max(rhs_min), lhs_max.max(rhs_max))
             }
-            Self::Sub(_lhs, _rhs) => {
-                // Note: Unlike for addition, subtraction involving two
-                // positive symbols may produce a negative result.
-                (i32::MIN, i32::MAX)
+            Self::Min(lhs, rhs) => {
+                let (lhs_min, lhs_max) = lhs.range();
+                let (rhs_min, rhs_max) = rhs.range();
+                (lhs_min.min(rhs_min), lhs_max.min(rhs_max))
             }
             Self::Broadcast(lhs, rhs) => {
                 let (lhs_min, lhs_max) = lhs.range();
